@@ -17,7 +17,7 @@ print(m.name)
 outs = {}
 for seed in range(6):
     env = dict(os.environ, PYTHONHASHSEED=str(seed))
-    r = subprocess.run([sys.executable, "-c", CHILD], env=env, capture_output=True, text=True, cwd="/tmp/s2_C12")
+    r = subprocess.run([sys.executable, "-c", CHILD], env=env, capture_output=True, text=True, cwd="/repo")
     if r.returncode: print(r.stderr[-2000:]); sys.exit(2)
     outs.setdefault(r.stdout, []).append(seed)
 print(outs)
